@@ -5,6 +5,7 @@ package vgirpc
 
 import (
 	"context"
+	"errors"
 	"fmt"
 	"io"
 	"log/slog"
@@ -152,6 +153,17 @@ func (s *Server) serveStream(ctx context.Context, r io.Reader, w io.Writer, req 
 		slog.Debug("stream: writing header", "method", info.Name, "type", fmt.Sprintf("%T", streamResult.Header))
 		if err := s.writeStreamHeader(w, streamResult.Header, callCtx.drainLogs()); err != nil {
 			slog.Debug("stream: header write error", "method", info.Name, "err", err)
+			var encodeErr *headerEncodeError
+			if errors.As(err, &encodeErr) {
+				// The header value could not be serialized, so nothing has
+				// been written yet: this is an init failure like the ones
+				// above. Answer it and drain the client's input stream so
+				// the session stays in frame.
+				headerErr := &RpcError{Type: "SerializationError", Message: fmt.Sprintf("stream header serialization: %v", encodeErr.err)}
+				s.logIPCWriteErr("error-response", req.Method, writeErrorResponse(w, outputSchema, headerErr, s.serverID, req.RequestID, s.debugErrors))
+				drainInputStream(r)
+				return headerErr, nil
+			}
 			return nil, nil // transport error during header, bail out
 		}
 		slog.Debug("stream: header written", "method", info.Name)
